@@ -78,6 +78,11 @@ def main():
         if at:
             # only the baseline is recorded; everything else in meta.json stays
             mp0 = os.path.join(VERIF, "seeded", sid, "meta.json")
+            if not os.path.exists(mp0):
+                # first filing of this change: the baseline run is also the first evaluation
+                meta["baseline_evaluation"] = {"verif_commit": at, "note": "the checks as committed when the sub-agent that wrote this change was started",
+                                               "checks": meta["checks"], "caught_by": meta["caught_by"]}
+                return meta
             old = json.load(open(mp0))
             old["baseline_evaluation"] = {"verif_commit": at, "note": "the checks as committed when the sub-agent that wrote this change was started",
                                           "checks": meta["checks"], "caught_by": meta["caught_by"]}
